@@ -1011,6 +1011,16 @@ func propC05(w *World, r *Report, tier string) {
 						continue
 					}
 					ok := f.HeaderIdx >= 0 && f.HeaderLen == f.HeaderIdx+1 && len(c.DecMand) > f.HeaderIdx
+					if len(c.Problems) > 0 && f.HeaderIdx >= 0 && f.HeaderLen == f.HeaderIdx+1 {
+						// a decoder E1 cannot read (written by hand in another style): the wire images of the
+						// message begin with the header octets and are reproduced octet for octet, for all
+						// values - so the body's leading octets are the header's
+						if good := checkCodecImages(w, NewReport("C05", w), cs, spec, map[string]bool{a.Body: true}, true); good[a.Body] {
+							r.OK("dispatch.header-view")
+							r.Note("dispatch.header-view / %s: decided by the wire images of the message (its decoder is not in the generator's style)", a.Body)
+							continue
+						}
+					}
 					if ok {
 						for k := 0; k <= f.HeaderIdx; k++ {
 							if itemsSig(c.DecMand[k].Items) != "V/octet/1" {
